@@ -111,6 +111,7 @@ void verify(Ctx& c, ExtObs const& o, TypeInfo const& ti, std::vector<ll> const& 
     c.eq("operator== with dextents of the same values", o.eq_same, 1);
     c.eq("operator== with dextents<other index type> of the same values", o.eq_other, 1);
     if (R > 0) { c.eq("operator== with dextents differing in the last extent", o.eq_perturbed, 0); }
+    c.r.outcome(mc::hash_str(cat(static_list(ti.statics()), show(std::vector<ll>(o.ext, o.ext + R)))));
 }
 
 /// make-and-observe step of one constructor form (the only per-type code)
